@@ -10,6 +10,23 @@ import (
 )
 
 func runProgenTool(c *Ctx) {
+	if f := os.Getenv("PROGEN_SEXP"); f != "" {
+		b, err := os.ReadFile(f)
+		if err != nil {
+			panic(err)
+		}
+		p, err := ParseProg(string(b))
+		if err != nil {
+			panic(err)
+		}
+		if err := Check(p, CheckOpts{AllowExtPartial: true}); err != nil {
+			fmt.Println("CHECK:", err)
+		}
+		fmt.Println(ToFolang(p))
+		r := Eval(p, 400000)
+		fmt.Printf("---- stdout (stuck=%q fuel=%v steps=%d)\n%s", r.Stuck, r.Fuel, r.Steps, r.Out)
+		return
+	}
 	n := c.Pick(200, 2000)
 	rng := NewRng(c.Seed).Fork() // NewRng(s) and NewRng(s+1) are the same stream shifted by one draw: fork first
 	prof := DefaultProfile()
